@@ -7,7 +7,7 @@ CFG = {
     "stages": ["go:gen", "go:impl", "lean:judge"],
     "theorems": [T + n for n in [
         "C13_terminates", "C13_terminates_methods", "C13_subsequence", "C13_endpoints", "C13_tolerance", "C13_tolerance_meaning",
-        "C13_members_independent", "C13_input_unchanged", "C13_simple", "C13_simple_partial", "C13_judge_embeds_sound",
+        "C13_members_independent", "C13_input_unchanged", "C13_simple", "C13_segsMeet_meaning", "C13_simple_partial", "C13_judge_embeds_sound",
     ]],
     "trusted_base": [
         "Lean 4.33.0 kernel; axioms of every theorem printed by #print axioms must be within {propext, Classical.choice, Quot.sound}",
